@@ -341,7 +341,7 @@ def repeated_vertex_eq_stream(ctx, n):
             ctx.disagree("C17:eq:repeated-vertex", desc, (True, True), r[1:3], replay=[desc])
 
 
-def expand_dims_measures_stream(ctx, n):
+def expand_dims_measures_stream(ctx, n, prefix="C17"):
     """polygon / segment collections of space after expand_dims (a new collection axis in front, or directly in front of the vertex
     axis): area, centroid-free measures and lengths are those of the original collection with the new axis of length 1"""
     import geometer as g
@@ -368,7 +368,23 @@ def expand_dims_measures_stream(ctx, n):
             r = call_impl(lambda: np.asarray(pc.expand_dims(axis).area, dtype=float))
             exp = np.expand_dims(base[1], pos)
             if r[0] != "ok" or r[1].shape != exp.shape or not np.allclose(r[1], exp, rtol=1e-9):
-                ctx.disagree("C17:expand_dims:area", desc, exp.tolist(), r[1:3] if r[0] != "ok" else r[1].tolist(), replay=[desc])
+                ctx.disagree(f"{prefix}:expand_dims:area", desc, exp.tolist(), r[1:3] if r[0] != "ok" else r[1].tolist(), replay=[desc])
+        # segment collections of space: lengths and membership after expand_dims with positive and negative axes
+        segs = np.array([[p[0], p[2]] for p in polys])                 # the diagonals of the rectangles, shape (m, 2, 4)
+        sc = g.SegmentCollection(segs)
+        mids = g.PointCollection((segs[:, 0, :] + segs[:, 1, :]) / 2)
+        base_len = call_impl(lambda: np.asarray(sc.length, dtype=float))
+        if base_len[0] != "ok":
+            continue
+        for axis, pos in ((0, 0), (1, 1), (-3, 1), (-4, 0)):
+            desc = f"SegmentCollection {segs[..., :3].tolist()} expand_dims({axis}) then .length / .contains(midpoints)"
+            ctx.case(desc)
+            ctx.count("expand_dims:segments")
+            r = call_impl(lambda: (np.asarray(sc.expand_dims(axis).length, dtype=float), np.asarray(sc.expand_dims(axis).contains(mids.expand_dims(pos)))))
+            exp = np.expand_dims(base_len[1], pos)
+            ok = r[0] == "ok" and r[1][0].shape == exp.shape and np.allclose(r[1][0], exp, rtol=1e-9) and r[1][1].shape == exp.shape and bool(np.all(r[1][1]))
+            if not ok:
+                ctx.disagree(f"{prefix}:expand_dims:segments", desc, (exp.tolist(), "all midpoints contained"), r[1:3] if r[0] != "ok" else (r[1][0].tolist(), r[1][1].tolist()), replay=[desc])
 
 
 def circumcenter_model_stream(ctx, n):
